@@ -451,3 +451,51 @@ def case_C05_latlon(seed):
                          {'case': U.case_repr(case), 'anchor': [lat0, lon0], 'metres_per_unit': s, 'state_index': j, 'failed': bad}))
             break
     return {'nontrivial': len(lb) >= 2, 'violations': viol, 'sample': {'anchor': [lat0, lon0], 'case': U.case_repr(case)}}
+
+
+# ================================================================================================== C17: search discs that end at a pole
+def polar_suite(chk, tier, seed):
+    """Totality at the one singular place of the lat-lon search box: a disc that just reaches, or just fails to reach, a pole
+    (the box switches there from a longitude interval to the whole parallel).  box_around_point and a match with that start
+    radius must not raise for radii within parts in 1e6 .. 1e16 of the distance to the pole, on either side."""
+    import random as _r
+    from leuvenmapmatching.util import dist_latlon as dl
+    from leuvenmapmatching.map.inmem import InMemMap
+    from leuvenmapmatching.matcher.simple import SimpleMatcher
+    U.quiet()
+    rnd = _r.Random(seed * 613 + 5)
+    n, evals = 0, 0
+    lats = [89.999, -89.999, 89.9, -89.0, 85.0] + [rnd.choice([1, -1]) * rnd.uniform(80.0, 89.9995) for _ in range(3 if tier == 'quick' else 40)]
+    for lat in lats:
+        lon = rnd.uniform(-179.0, 179.0)
+        to_pole = G.R * (math.pi / 2 - math.radians(abs(lat)))
+        for k in list(range(6, 17)) + [None]:
+            for sgn in (1.0, -1.0):
+                r = to_pole if k is None else to_pole * (1.0 + sgn * 10.0 ** -k)
+                evals += 1
+                try:
+                    box = dl.box_around_point((lat, lon), r)
+                    ok = len(box) == 4 and all(isinstance(v, float) or isinstance(v, int) for v in box)
+                    err = None if ok else f"returned {box!r}"
+                except Exception as e:
+                    err = f"raised {e!r}"
+                if err is None and k in (9, 12, None) and sgn > 0:
+                    # the same radius as start radius of a match on a small map next to the query point
+                    s_ = 1.0 if lat < 0 else -1.0
+                    g = {1: ((lat + s_ * 2e-4, lon), [2]), 2: ((lat + s_ * 4e-4, lon + 1e-3), [1])}
+                    try:
+                        mt = SimpleMatcher(InMemMap('polar', use_latlon=True, use_rtree=False, graph=g), obs_noise=20.0, max_dist_init=r, max_dist=r,
+                                           non_emitting_states=False)
+                        res = mt.match([(lat + s_ * 2.5e-4, lon), (lat + s_ * 3.5e-4, lon + 5e-4)])
+                        if not (isinstance(res, tuple) and len(res) == 2):
+                            err = f"match returned {res!r}"
+                    except Exception as e:
+                        err = f"match(max_dist_init={r!r}) raised {e!r}"
+                    evals += 1
+                if err:
+                    n += 1
+                    chk.violation(key='C17:search-disc-ending-at-a-pole', text=f"box_around_point(({lat}, {lon}), {r!r}) [distance to the pole {to_pole!r}]: {err}",
+                                  replay={'kind': 'bounded', 'suite': 'polar', 'location': [lat, lon], 'radius': r, 'distance_to_pole': to_pole, 'error': err})
+    chk.bounded_suite('search-discs-ending-at-a-pole', evals, len(lats), [[lats[0], 'radius = distance to the pole * (1 +- 10^-k), k = 6..16']],
+                      rule="locations 100 m .. 1100 km from a pole; radii equal to the distance to the pole and within parts in 1e6 .. 1e16 of it on either side: "
+                           "box_around_point returns four numbers, and a match with that start radius returns a (list, index) pair", bounds='')
